@@ -114,23 +114,29 @@ CLAIMED = {
         "Lean 4 proof (fold invariants over both construction strategies, scatter lemma) + to_array regenerated from the source (translator) with a bridge theorem + option-grid correspondence",
         "DESIGN.md §5 C01"),
     "C06": (
-        "Lean 4 refinement theorems to the dense array for the operations proved so far (copy, shift_common with any or "
-        "the library-chosen value, construction from arrays) and their lift to arbitrary finite histories; all other "
-        "operations of the property are modelled statement by statement and tied to the real code after EVERY step of "
-        "generated histories (1..12 operations, all single operations on every small index), with the NumPy reference "
-        "semantics evaluated on the real code as the oracle, operands byte-compared and requested copies checked for "
-        "shared storage. Partial: per-operation refinement lemmas for append/update/filtered/sliced/reindexed/collapsed/"
-        "column_stack are not yet theorems.",
-        "Trusted: Lean kernel; the iindex model is tied by correspondence only for the operations without theorems.",
-        "Lean 4 proof (refinement per operation + induction over histories, partial) + per-step history correspondence + common_rowids and the re-encoding block of shift_common regenerated from the source (translator) and proved to be the modelled query / operation",
+        "Lean 4 refinement theorems to the dense array, one per operation: copy, shift_common (any or the library-chosen "
+        "value), append, filtered, update, reindexed, sliced, collapsed, column_stack, the entry-wise set updates (through the "
+        "verified kernels of C08), the forced queries, construction from arrays - and their lift to arbitrary finite "
+        "histories, also when sliced / collapsed / column_stack change the higher shape along the way (history_any_shape), "
+        "each under the operation's own precondition and for the one / two axes the code supports (three axes for sliced). "
+        "Every operation is also modelled statement by statement and tied to the real code after EVERY step of generated "
+        "histories (1..12 operations, all single operations on every small index, forced reads in between), with the NumPy "
+        "reference semantics evaluated on the real code as the oracle, operands byte-compared (and still well-formed) and "
+        "requested copies checked for shared storage. common_rowids, the re-encoding block of shift_common and append (up "
+        "to its final shift_common) are REGENERATED from the source on every run and proved equal to the modelled operations.",
+        "Trusted: Lean kernel; the hand-written iindex model is tied to the code by correspondence for the operations that are not regenerated; NumPy primitives as list functions.",
+        "Lean 4 proof (refinement per operation + induction over histories, partial) + per-step history correspondence + common_rowids, the re-encoding block of shift_common and append regenerated from the source (translator) and proved to be the modelled query / operations",
         "DESIGN.md §5 C06"),
     "C07": (
         "Lean 4: the well-formedness predicate WF as a proposition, its decidable twin wf (evaluated by the harness on every "
-        "real result) proved sound, and preservation of WF by shift_common/copy; for the other operations preservation is "
-        "checked after every step of every history on the real code (validate(True) + range/arity/non-emptiness/dtype "
-        "conditions + abscissae/sparsity) and on the model. Partial as C06.",
-        "Trusted: Lean kernel; correspondence for operations without theorems.",
-        "Lean 4 proof (invariant preservation, partial) + per-step validation on real code and model + validate(True) regenerated from the source (translator) and proved to be the model's validates",
+        "real result) proved sound, and a preservation theorem for EVERY operation of the property (construction by both "
+        "strategies, copy, shift_common, append, filtered, update, reindexed, sliced, column_stack, collapsed, the entry-wise "
+        "set updates), each under the operation's own precondition. validate(True), the re-encoding block of shift_common "
+        "and append are REGENERATED from the source and proved to be the modelled predicate / operations. The real code is "
+        "checked after every step of every history (validate(True) + range/arity/non-emptiness/dtype conditions + "
+        "abscissae/sparsity; operands the caller still holds included) and compared with the model.",
+        "Trusted: Lean kernel; correspondence for the operations that are not regenerated; the axis restrictions of the model (one / two axes) are those of the code.",
+        "Lean 4 proof (invariant preservation, partial) + per-step validation on real code and model + validate(True), shift_common's re-encoding and append regenerated from the source (translator) and proved to be the model's",
         "DESIGN.md §5 C07"),
     "C15": (
         "Lean 4 theorems: __eq__ model holds iff shape, common and dense content coincide (for well-formed indexes), is "
